@@ -67,12 +67,23 @@ def all_plans():
         for point in ('before_open', 'mid_file'):
             plans.append({'kind': 'raise', 'point': point, 'file': 0, 'k': 1, 'workers': workers,
                           'nfiles': nfiles, 'big': 400, 'queue_size': 3})
+    # an I/O error (OSError) in the middle of a gzip-compressed file, lenient decoding: the
+    # task has failed, whatever fallbacks the file-opening logic has
+    for gz in (True, False):
+        plans.append({'kind': 'none', 'point': 'none', 'file': 0, 'workers': 2, 'nfiles': 3,
+                      'gz': gz, 'decode': 'ignore'})
+        for workers, nfiles in ((2, 3),):
+            for k in (1, 3):
+                plans.append({'kind': 'raise', 'exc': 'OSError', 'point': 'mid_file', 'file': 0,
+                              'k': k, 'workers': workers, 'nfiles': nfiles, 'gz': gz,
+                              'decode': 'ignore'})
     return plans
 
 
 def ckey(plan):
     """ plans with the same files (hence the same fault-free results) """
-    return (plan['nfiles'], plan.get('big'), plan['file'] if plan.get('big') else 0)
+    return (plan['nfiles'], plan.get('big'),
+            plan['file'] if plan.get('big') else 0, bool(plan.get('gz')), plan.get('decode'))
 
 
 def run_plan(plan):
@@ -182,7 +193,9 @@ def judge(rep, item, mo, control):
            f"workers {plan['workers']} k={plan.get('k', 1)}" + \
            (f" hold={plan['hold']}s" if plan.get('hold') else '') + \
            (f" other files {plan['big']} lines, results queue of {plan['queue_size']}"
-            if plan.get('big') else '')
+            if plan.get('big') else '') + \
+           (f" {'gzip' if plan.get('gz') else 'plain'} files, {plan.get('exc', 'exception')}, "
+            f"decode_errors={plan['decode']}" if plan.get('decode') else '')
     if 'start' not in r:
         raise core.Infra(f"fault plan did not start: {impl['tail']}")
 
@@ -255,6 +268,8 @@ def run(tier, seed, replay_case=None):
                  and p['point'] in ('mid_file', 'sync_inside', 'before_open')]
         must += [p for p in plans if p.get('big') and p['workers'] == 1
                  and p['point'] in ('none', 'before_open')]
+        must += [p for p in plans if p.get('decode') and p.get('gz') and
+                 (p['kind'] == 'none' or (p['k'] == 3 and p['workers'] == 2))]
         rest = [p for p in plans[2:] if p not in must]
         chosen = plans[:2] + must + rng.sample(rest, 28)
     else:
